@@ -491,17 +491,19 @@ fn splice(printed: &str, d: &Directive, nloops: usize, nrets: usize) -> Result<S
             None => (0, pat),
         };
         let mut pending: Option<usize> = None; // indentation of the matched statement (after-stmt)
+        let mut depth: i64 = 0; // bracket depth inside the matched statement: it ends on the first line that closes every bracket it opened
         for l in out.into_iter() {
             let is_match = !done && pending.is_none() && l.trim_start().starts_with(pat);
             if is_match && skip > 0 { skip -= 1; out2.push(l); continue; }
             if is_match {
                 let ind = l.len() - l.trim_start().len();
-                if after { pending = Some(ind); } else {
+                if after { pending = Some(ind); depth = 0; } else {
                     out2.push(indent(txt, ind));
                     done = true;
                 }
             }
-            let is_end = pending.map(|ind| l.len() - l.trim_start().len() == ind && (l.trim_end().ends_with(';') || l.trim() == "}")).unwrap_or(false);
+            if pending.is_some() { depth += bracket_delta(&l); }
+            let is_end = pending.is_some() && depth <= 0 && (l.trim_end().ends_with(';') || l.trim_end().ends_with('}'));
             out2.push(l);
             if is_end {
                 out2.push(indent(txt, pending.unwrap()));
@@ -1189,4 +1191,27 @@ fn main() {
 #[allow(dead_code)]
 fn _unused(v: &mut dyn VisitMut) {
     let _ = v;
+}
+
+/// net bracket depth change of one line of pretty-printed Rust (string / char literals and line comments skipped)
+fn bracket_delta(l: &str) -> i64 {
+    let b: Vec<char> = l.chars().collect();
+    let mut d = 0i64;
+    let mut i = 0;
+    while i < b.len() {
+        match b[i] {
+            '"' => { i += 1; while i < b.len() && b[i] != '"' { if b[i] == '\\' { i += 1; } i += 1; } }
+            '\'' => {
+                // char literal ('x', '\n', '\'') vs lifetime ('a): a literal closes within 4 chars
+                if i + 2 < b.len() && b[i + 1] != '\\' && b[i + 2] == '\'' { i += 2; }
+                else if i + 3 < b.len() && b[i + 1] == '\\' && b[i + 3] == '\'' { i += 3; }
+            }
+            '/' if i + 1 < b.len() && b[i + 1] == '/' => break,
+            '(' | '[' | '{' => d += 1,
+            ')' | ']' | '}' => d -= 1,
+            _ => {}
+        }
+        i += 1;
+    }
+    d
 }
